@@ -483,7 +483,8 @@ class Module:
         if op in ("icmp", "fcmp"):
             fl = self._fmf(p) if op == "fcmp" else ()
             pred = p.next()[1]; t = p.type(); a = p.value(t); p.expect(","); b = p.value(t)
-            return I(t, (pred, a, b), fl)
+            if t.k == "vec": raise Unsupported("vector compare: " + s.strip())
+            return I(I1, (pred, a, b, t), fl)       # result type i1; operand type kept as 4th element
         if op == "select":
             self._fmf(p)
             ct, c = p.tvalue(); p.expect(","); t, a = p.tvalue(); p.expect(","); _t, b = p.tvalue()
@@ -619,8 +620,9 @@ RT_STUBS = {
 
 
 class Emitter:
-    def __init__(self, mod, entries, cuts=(), stubs=None, keep_names=True):
+    def __init__(self, mod, entries, cuts=(), stubs=None, externs=()):
         self.m, self.entries = mod, list(entries)
+        self.extern_ok = set(externs)     # declared-only functions supplied by the harness (hooks)
         self.cuts = [re.compile(c) for c in cuts]     # regexes on mangled names: call -> rt_throw (path ends)
         self.stubs = dict(RT_STUBS); self.stubs.update(stubs or {})
         self.used_stubs, self.cut_hits, self.funcs_emitted = set(), set(), []
@@ -645,6 +647,10 @@ class Emitter:
         if t.k == "double": return "double"
         if t.k == "x86_fp80": return "long double"
         if t.k == "void": return "void"
+        if t.k == "arr":
+            key = repr(t)
+            if key not in self.struct_types: self.struct_types[key] = ("agg%d" % len(self.struct_types), t)
+            return "struct " + self.struct_types[key][0]
         raise Unsupported("C type for " + repr(t))
 
     def agg_type(self, rt):
@@ -780,6 +786,7 @@ class Emitter:
     def fname(self, name):
         f = self.m.funcs[name]
         if self.is_cut(name): return "cut_" + cid(name)
+        if not f.defined and name in self.extern_ok: return cid(name)
         if not f.defined and name in self.stubs: return "stub_" + cid(name)
         return cid(name)
 
@@ -807,6 +814,8 @@ class Emitter:
                 elif f.defined:
                     self.funcs_emitted.append(name)
                     bodies.append(self.func(f))
+                elif name in self.extern_ok:
+                    self.externs.add(name)
                 elif name in self.stubs:
                     self.used_stubs.add(name)
                     bodies.append(self.stub_body(f, self.stubs[name]))
@@ -820,9 +829,22 @@ class Emitter:
                 t, init, _c = self.m.globals[g]
                 self.global_init_code(g, t, init)     # registers references (result cached)
         out = ['#include "ir2c_rt.h"', ""]
-        for key, (name, rt) in self.struct_types.items():
-            fields = "".join(" %s f%d;" % (self.cty(ft), i) for i, ft in enumerate(rt.a))
-            out.append("struct %s {%s };" % (name, fields))
+        # aggregate typedefs: materialise nested ones first (fixpoint), then emit in dependency order
+        done = {}
+        while len(done) < len(self.struct_types):
+            for key, (name, rt) in list(self.struct_types.items()):
+                if key not in done:
+                    done[key] = ["%s e[%d]" % (self.cty(rt.b), max(rt.a, 1))] if rt.k == "arr" else [self.cty(ft) for ft in rt.a]
+        emitted, pending = set(), dict(self.struct_types)
+        while pending:
+            progress = False
+            for key, (name, rt) in list(pending.items()):
+                deps = [f.split()[1] for f in done[key] if f.startswith("struct ")]
+                if all(d in emitted for d in deps):
+                    if rt.k == "arr": out.append("struct %s { %s; };" % (name, done[key][0]))
+                    else: out.append("struct %s {%s };" % (name, "".join(" %s f%d;" % (ft, i) for i, ft in enumerate(done[key])) or " char empty_;"))
+                    emitted.add(name); del pending[key]; progress = True
+            if not progress: raise Unsupported("recursive aggregate type")
         out += protos
         inits = []
         for g in self.globals_used:
@@ -991,7 +1013,7 @@ class Emitter:
         if op == "fneg":
             return ["%s = -%s;" % (R, V(a[0]))]
         if op == "icmp":
-            pred, x, y = a
+            pred, x, y, t = a
             if t.k == "ptr":
                 xs, ys = "((uintptr_t)%s)" % V(x), "((uintptr_t)%s)" % V(y)
                 if pred in ("eq", "ne"): xs, ys = V(x), V(y)
@@ -1002,7 +1024,7 @@ class Emitter:
             sym = {"eq": "==", "ne": "!=", "ugt": ">", "uge": ">=", "ult": "<", "ule": "<=", "sgt": ">", "sge": ">=", "slt": "<", "sle": "<="}[pred]
             return ["%s = (uint8_t)(%s %s %s);" % (R, xs, sym, ys)]
         if op == "fcmp":
-            pred, x, y = a; xs, ys = V(x), V(y)
+            pred, x, y, t = a; xs, ys = V(x, t), V(y, t)
             un = "(%s != %s || %s != %s)" % (xs, xs, ys, ys)
             base = {"eq": "==", "gt": ">", "ge": ">=", "lt": "<", "le": "<=", "ne": "!="}
             if pred == "true": e = "1"
@@ -1071,7 +1093,8 @@ class Emitter:
                 else:
                     dyn.append("(int64_t)%s * %d" % (self.sext(it, self.val(iv, it, loc)), es))
             terms = dyn + (["%d" % off] if off or not dyn else [])
-            return ["%s = %s + (%s);" % (R, e, " + ".join(terms))]
+            if not dyn: return ["%s = %s + (%s);" % (R, e, terms[0])] if off else ["%s = %s;" % (R, e)]
+            return ["%s = RT_GEP(%s, %s);" % (R, e, " + ".join(terms))]
         if op == "load":
             if t.k in ("struct", "named", "arr"): raise Unsupported("aggregate load in " + f.name)
             return ["%s = LD(%s, %s);" % (R, ct, self.val(a[0], T("ptr", None), loc))]
@@ -1218,18 +1241,18 @@ class Emitter:
         raise Unsupported("intrinsic " + name)
 
 
-def emit_c(ll_text, entries, cuts=(), stubs=None):
+def emit_c(ll_text, entries, cuts=(), stubs=None, externs=()):
     """-> (C text, info dict)"""
     m = Module(ll_text)
-    e = Emitter(m, entries, cuts, stubs)
+    e = Emitter(m, entries, cuts, stubs, externs)
     c = e.emit()
-    info = dict(functions=sorted(e.funcs_emitted), stubs=sorted(e.used_stubs), cuts=sorted(e.cut_hits), globals=list(e.globals_used))
+    info = dict(functions=sorted(e.funcs_emitted), stubs=sorted(e.used_stubs), cuts=sorted(e.cut_hits), globals=list(e.globals_used), externs=sorted(e.externs))
     return c, info, m
 
 
 if __name__ == "__main__":
     import json
     txt = open(sys.argv[1]).read()
-    c, info, _m = emit_c(txt, sys.argv[3].split(","), cuts=sys.argv[4].split(",") if len(sys.argv) > 4 and sys.argv[4] else ())
+    c, info, _m = emit_c(txt, sys.argv[3].split(","), cuts=sys.argv[4].split(",") if len(sys.argv) > 4 and sys.argv[4] else (), externs=sys.argv[5].split(",") if len(sys.argv) > 5 else ())
     open(sys.argv[2], "w").write(c)
     print(json.dumps(info, indent=1))
